@@ -252,7 +252,9 @@ class ToLinen(linen.Module):
     variables = {col: v for col, v in self.variables.items() if col != 'nnx'}
     states = jtu.tree_map_with_path(
         lambda kp, x: bv.to_nnx_var(bv.get_col_name(kp), x).to_state(),
-        variables, is_leaf=lambda x: isinstance(x, meta.AxisMetadata))
+        variables,
+        is_leaf=lambda x: isinstance(x, meta.AxisMetadata)
+        or not isinstance(x, tp.Mapping))
     states = [State(v) for v in states.values()]
     nnx_state = nnx.merge_state(*states) if states else nnx.GraphState({})
     module = nnx.merge(gdef, nnx_state)
